@@ -6,6 +6,9 @@
 namespace c11 {
 // known findings (excluded by construction when listed in VERIF_EXCLUDE)
 static const char* const KEY_SORTED_EMPTY = "C11/LC_CSR_Graph/findEdgeSortedByDst-no-edges";
+static const char* const KEY_REUSE_OOL    = "C11/LC_CSR_Graph/constructFrom-reuse-out-of-line-lockable";
+static const char* const KEY_LINEAR_EMPTY = "C11/LC_Linear_Graph/empty-graph-null-pointer-arithmetic";
+static const char* const KEY_CSC_SORT_VOID = "C11/LC_CSR_CSC_Graph/sortInEdgesByDst-void-edge-data";
 
 // membership queries on a CSR-like graph whose out-edge sequences equal `adj`
 template <class Gr>
@@ -32,11 +35,14 @@ static void csr_membership(Gr& g, const Ctx& c, const Adj& adj, const char* stag
     }
     if (sorted_by_dst(adj[u])) { // precondition of the binary search
       if (c.m == 0) {
-        // known finding: the probe after lower_bound dereferences the (null) edge array
+        // known finding: the probe after lower_bound dereferences the edge array, which is null without edges
         if (excluded(KEY_SORTED_EMPTY)) {
           count_excluded();
           continue;
         }
+        int how = probe_in_child([&] { (void)g.findEdgeSortedByDst(u, v); });
+        CCHECK(how == 0, "findEdgeSortedByDst-no-edges", "%s: findEdgeSortedByDst(%u,%u) on a graph with %u nodes and no edges ends the process (%s %d)", stage, u,
+               v, c.n, how >= 1000 ? "exit status" : "signal", how >= 1000 ? how - 1000 : how);
       }
       auto is = g.findEdgeSortedByDst(u, v);
       if (!has)
